@@ -861,7 +861,7 @@ func runAll(t *testing.T, prop string, all []ctype) {
 	w := r.NewWorker("linearizability")
 	defer r.Done(w)
 	st := &stats{sigs: map[uint64]struct{}{}, distinctHist: map[uint64]struct{}{}}
-	runs := r.Pick(16, 256)
+	runs := r.Pick(16, 48)
 
 	if o := r.Only(); o != nil {
 		var c Case
